@@ -236,15 +236,20 @@ def cpsat_event(s, mode, rng, lb=0, ub=0, small=True, with_rules=True):
                 solver(model.build_instance(random_instance(rng, max_jobs=2, max_ops=2, max_m=2, flexible=False)))
         return solver(s.instance) if rng.random() < 0.5 else solver.solve(s.instance)
 
+    import time as _time
+    t0 = _time.perf_counter()
     out, sch = _outcome(go)
+    wall = _time.perf_counter() - t0
     ev = {"a": "CpSat", "mode": mode, "out": out, "sched": [], "makespan": 0, "status": "", "solved_by": "",
-          "elapsed_sign": 0, "lb": lb, "ub": ub, "small": bool(small), "rule_mks": []}
+          "elapsed_sign": 0, "lb": lb, "ub": ub, "small": bool(small), "rule_mks": [], "elapsed_le_wall": True}
     if out == "ok":
         md = sch.metadata
         el = md.get("elapsed_time")
         ev.update({"sched": model.project_schedule(sch), "makespan": model.num(md.get("makespan")),
                    "status": str(md.get("status")), "solved_by": str(md.get("solved_by")),
-                   "elapsed_sign": (-2 if not isinstance(el, (int, float)) else (el > 0) - (el < 0))})
+                   "elapsed_sign": (-2 if not isinstance(el, (int, float)) else (el > 0) - (el < 0)),
+                   # the time the solver reports for itself was spent inside the call measured around it
+                   "elapsed_le_wall": bool(isinstance(el, (int, float)) and el <= wall + 0.05)})
         if with_rules:
             mks = []
             for rule in ("shortest_processing_time", "most_work_remaining", "first_come_first_served",
